@@ -194,7 +194,7 @@ def rule_c(ctx):
     rid = "C13.c"
     ctx.rule(rid, "the owned descriptor is closed only by Drop for WakeFd; the owner type is never cloned/forgotten/bitwise-read; "
                   "register_raw owns the descriptor before any exit and drops or moves the owner on every path", floor=4)
-    drop = F.one(name_re=r"^<signal_hook::low_level::pipe::WakeFd as std::ops::Drop>::drop$", what="Drop for WakeFd")
+    drop = F.one(name_re=r"^<signal_hook::low_level::pipe::WakeFd as core::ops::drop::Drop>::drop$", what="Drop for WakeFd")
     ctx.fn(drop)
     n_close = 0
     for m in F.inst:
@@ -214,10 +214,10 @@ def rule_c(ctx):
     c = call_sites(F, drop, foreign("close"))
     okk, why = exactly_once(drop, [b for b, _, _ in c]) if c else (False, "no close")
     ctx.check(okk, rid, "close:once", "Drop for WakeFd closes exactly once on every path", drop.span, why)
-    esc = type_instances(F, WAKEFD, [r"^std::mem::forget::<", r"ManuallyDrop::<.*>::new$", r"^std::ptr::read(_volatile|_unaligned)?::<",
-                                     r" as std::clone::Clone>::clone$", r"^std::mem::transmute_copy"])
-    esc = [i for i in esc if re.search(r"(forget|new|read\w*|transmute_copy)::<[^>]*WakeFd|<signal_hook::low_level::pipe::WakeFd as std::clone::Clone>", i.name)
-           or i.name.startswith("std::mem::ManuallyDrop::<signal_hook::low_level::pipe::WakeFd")]
+    esc = type_instances(F, WAKEFD, [r"^core::mem::forget::<", r"ManuallyDrop::<.*>::new$", r"^core::ptr::read(_volatile|_unaligned)?::<",
+                                     r" as core::clone::Clone>::clone", r"^core::mem::transmute_copy"])
+    esc = [i for i in esc if re.search(r"(forget|new|read\w*|transmute_copy)::<[^>]*WakeFd|<signal_hook::low_level::pipe::WakeFd as core::clone::Clone>", i.name)
+           or i.name.startswith("core::mem::manually_drop::ManuallyDrop::<signal_hook::low_level::pipe::WakeFd")]
     ctx.check(not esc, rid, "owner:no-escape", "no forget/ManuallyDrop/ptr::read/Clone instance on WakeFd in the monomorphic program",
               None, [i.name for i in esc])
     rr = F.one("signal_hook::low_level::pipe::register_raw")
